@@ -333,7 +333,12 @@ func c10Build(c c10cfg) func(hist []string) hx.GView {
 // ---- S part: a user operation arrives while an outbound connection is being established ----
 
 // op: unregister | cancel | shutdown; when: dial (the dial is on its way) | handshake (the connection exists, the handshake runs)
-func c10RaceBody(op, when string, bTrustsA bool) func() {
+func c10RaceBody(op, when string, bTrustsA bool) func() { return raceBody(op, when, bTrustsA, false) }
+
+// raceBody with c01 set judges the same executions by C01: once the user has withdrawn the registration (the only
+// ground of trust for a connection the hub dials itself) no handshake may complete, no remote device be set up and
+// no payload be delivered for that SKI.
+func raceBody(op, when string, bTrustsA bool, c01 bool) func() {
 	return func() {
 		simrt.ClearTraceHooks()
 		fakews.SetLatency(time.Millisecond)
@@ -349,6 +354,7 @@ func c10RaceBody(op, when string, bTrustsA bool) func() {
 		simrt.RunFor(100 * time.Millisecond)
 		simrt.Mark()
 		done := false
+		opAt := 0
 		cancelCovered := true
 		simrt.Go("user", func() {
 			switch when {
@@ -382,6 +388,7 @@ func c10RaceBody(op, when string, bTrustsA bool) func() {
 			case "shutdown":
 				a.Hub.Shutdown()
 			}
+			opAt = len(a.App.Log)
 			done = true
 		})
 		a.Hub.RegisterRemoteSKI(b.SKI) // queued: the hub dials at once
@@ -390,6 +397,20 @@ func c10RaceBody(op, when string, bTrustsA bool) func() {
 		simrt.RunFor(15 * time.Second)
 		if !done {
 			simrt.Outcome("user operation never happened")
+			return
+		}
+		if c01 {
+			if op == "unregister" {
+				for _, e := range a.App.Log[opAt:] {
+					if e.SKI == b.SKI && (e.Kind == "setup" || e.Kind == "payload") {
+						simrt.Fail("C01|hub|"+e.Kind+"-after-unregister", "the application got a %s for a SKI after the user had unregistered it (the unregister arrived while the hub's own %s was on its way)", e.Kind, when)
+					}
+				}
+				if c, has := registry(a)[b.SKI]; has && completed(c) {
+					simrt.Fail("C01|hub|complete-after-unregister", "a handshake with a SKI completed after the user had unregistered it (%s)", when)
+				}
+			}
+			simrt.Outcome(fmt.Sprintf("log=%d", len(a.App.Log)))
 			return
 		}
 		c, has := registry(a)[b.SKI]
